@@ -59,12 +59,15 @@ theorem copy_succeeds_partial (pol : Policy) (w : World) (root : Nat) (hroot : r
   exact ⟨c, hc, fun kv hkv wt hwt hk _ => hm kv hkv wt hwt hk⟩
 
 def c17Sub : ClassDef :=
-  { name := "Sub", params := [⟨"x", .int 0, false, none⟩, ⟨"y", .int 0, false, none⟩],
+  { name := "Sub", params := [⟨"x", .int 0, false, none, .notSel⟩, ⟨"y", .int 0, false, none, .notSel⟩],
     methods := [⟨"s", [.own "x"]⟩], plain := ["cb"] }
 def c17Top : ClassDef :=
-  { name := "Top", params := [⟨"a", .none, true, none⟩, ⟨"b", .none, true, none⟩, ⟨"n", .int 1, false, some (0, 100)⟩],
+  { name := "Top", params := [⟨"a", .none, true, none, .notSel⟩, ⟨"b", .none, true, none, .notSel⟩,
+      ⟨"n", .int 1, false, some (0, 100), .notSel⟩, ⟨"choice", .none, false, none, .choice⟩],
     methods := [⟨"m", [.sub "a" "x"]⟩, ⟨"k", [.own "n"]⟩, ⟨"mb", [.sub "a" "y", .sub "b" "y"]⟩], plain := ["cb"] }
-def c17Empty : World := { classes := [c17Sub, c17Top], objs := [], cells := [], nextPid := 1, log := [] }
+/-- no object yet; the class-level `_objects` / `names` of `Top.choice` (a `Selector()`) are lists 0 and 1 -/
+def c17Empty : World := { classes := [c17Sub, c17Top], objs := [], cells := [[], []], nextPid := 1, log := [],
+                          clsSlots := [(1, "choice", 0, 1)] }
 /-- the witness: `s = Sub(x=1); t = Top(a=s)` -/
 def c17Ops : List Op := [.new 0 [("x", .int 1)], .new 1 [("a", .obj 0)]]
 
@@ -81,14 +84,16 @@ theorem copy_fails_with_old_setstate :
 
 /-- **C17 (copy_isomorphic).**  After a successful copy the object at `N + i` is the image of object
 `i` under the renaming `o ↦ N + o`, `c ↦ M + c`: same class, parameter values, per-instance Parameter
-copies (bounds, constant), ordinary attributes and recorded dynamic watchers — equal up to the id
-bijection — and list `M + c` has the contents of list `c`.  (The `watchers` table is what
+copies (bounds, constant; the `_objects` / `names` containers of Selector copies renamed like every other
+list), ordinary attributes and recorded dynamic watchers — equal up to the id bijection — and list `M + c` has the contents of list `c`.  (The `watchers` table is what
 `__setstate__` rewrites; see `Rebound` in Store/CopyLemmas.lean.) -/
 theorem copy_isomorphic (pol : Policy) (w w' : World) (root r' : Nat)
     (h : copyGraph pol w root = .ok (w', r')) :
     r' = w.objs.length + root ∧
     (∀ (i : Nat) (ob : Obj), w.objs[i]? = some ob →
-      ∃ ob', w'.objs[w.objs.length + i]? = some ob' ∧ ob'.cls = ob.cls ∧ ob'.pcopies = ob.pcopies ∧
+      ∃ ob', w'.objs[w.objs.length + i]? = some ob' ∧ ob'.cls = ob.cls ∧
+        ob'.pcopies = ob.pcopies.map (fun kv => (kv.1, { kv.2 with slots := kv.2.slots.map fun s =>
+          (w.cells.length + s.1, w.cells.length + s.2) })) ∧
         ob'.values = ob.values.map (fun kv => (kv.1, renVal w.objs.length w.cells.length kv.2)) ∧
         ob'.attrs = ob.attrs.map (fun kv => (kv.1, renVal w.objs.length w.cells.length kv.2)) ∧
         ob'.dyn = ob.dyn.map (fun kv => (kv.1, kv.2.map (renWatcher w.objs.length w.nextPid)))) ∧
@@ -144,18 +149,18 @@ def opsIn (S C : Nat → Prop) : World → List Op → Prop
     | .ok w1 => opsIn S C w1 rest
     | .error _ => True
 
-theorem run_good {S C : Nat → Prop} : ∀ (ops : List Op) (w w' : World), Closed w S C → opsIn S C w ops →
+theorem run_good {S C : Nat → Prop} : ∀ (ops : List Op) (w w' : World), Closed w S C → Fresh w C → opsIn S C w ops →
     runOps w ops = .ok w' → Good w w' S C
-  | [], w, w', hc, _, h => by simp [runOps] at h; subst h; exact Good.refl hc
-  | op :: rest, w, w', hc, hin, h => by
+  | [], w, w', hc, _, _, h => by simp [runOps] at h; subst h; exact Good.refl hc
+  | op :: rest, w, w', hc, hf, hin, h => by
     simp only [runOps] at h
     simp only [opsIn] at hin
     cases hs : step w op with
     | error e => simp [hs] at h
     | ok w1 =>
       simp only [hs] at h hin
-      have g1 := step_good hc hin.1 hs
-      exact g1.trans (run_good rest w1 w' g1.closed hin.2 h)
+      have g1 := step_good hc hf hin.1 hs
+      exact g1.trans (run_good rest w1 w' g1.closed (g1.fresh hf) hin.2 h)
 
 /-- **C17 (dependencies_act_on_copy_only).**  After a successful copy, any later history of
 assignments (ints, `None`, new lists, objects of the copy), in-place mutations, Parameter-attribute
@@ -169,26 +174,37 @@ theorem dependencies_act_on_copy_only (pol : Policy) (w w' w'' : World) (root r'
     (∃ added, w''.log = w'.log ++ added ∧ ∀ e ∈ added, w.objs.length ≤ e.1) ∧
     (∀ i : Nat, i < w.objs.length → w''.objs[i]? = w.objs[i]?) ∧
     (∀ c : Nat, c < w.cells.length → w''.cells[c]? = w.cells[c]?) := by
-  have g := run_good ops w' w'' (copy_closed_high h) hops hrun
   obtain ⟨_, _, hcells, _, copies, ho, _, _⟩ := copyGraph_spec h
+  have g := run_good ops w' w'' (copy_closed_high h) (by intro n hn; rw [hcells] at hn; simp at hn; omega) hops hrun
   refine ⟨g.loc.logPrefix, ?_, ?_⟩
   · intro i hi
     rw [g.loc.objsFrame i (by simp; exact hi), ho, List.getElem?_append_left hi]
   · intro c hc
     rw [g.loc.cellsFrame c (by simp; exact hc), hcells, List.getElem?_append_left hc]
 
-/-- … and symmetrically: a later history applied to objects of the original (no new lists) invokes only
-methods of original objects and leaves every object and list of the copy as it was. -/
+/-- … and symmetrically: a later history applied to objects of the original (which may create new lists and
+new per-instance Parameter copies: they land beyond both halves) invokes only methods of original objects
+and leaves every object and list of the copy as it was. -/
 theorem dependencies_act_on_original_only (pol : Policy) (w w' w'' : World) (root r' : Nat) (hw : WF w)
     (h : copyGraph pol w root = .ok (w', r')) (ops : List Op)
-    (hops : opsIn (fun o => o < w.objs.length) (fun c => c < w.cells.length) w' ops)
+    (hops : opsIn (fun o => o < w.objs.length) (fun c => c < w.cells.length ∨ w'.cells.length ≤ c) w' ops)
     (hrun : runOps w' ops = .ok w'') :
     (∃ added, w''.log = w'.log ++ added ∧ ∀ e ∈ added, e.1 < w.objs.length) ∧
     (∀ i : Nat, w.objs.length ≤ i → w''.objs[i]? = w'.objs[i]?) ∧
-    (∀ c : Nat, w.cells.length ≤ c → w''.cells[c]? = w'.cells[c]?) := by
-  have g := run_good ops w' w'' (copy_closed_low h hw) hops hrun
+    (∀ c : Nat, w.cells.length ≤ c → c < w'.cells.length → w''.cells[c]? = w'.cells[c]?) := by
+  have hlow := copy_closed_low h hw
+  have hc : Closed w' (fun o => o < w.objs.length) (fun c => c < w.cells.length ∨ w'.cells.length ≤ c) := by
+    intro i ob hi hob
+    have r := hlow i ob hi hob
+    refine ⟨fun kv hkv => ?_, fun kv hkv => ?_, r.watchers, r.dyn, fun kv hkv s hs => ?_⟩
+    · have := r.values kv hkv
+      cases hv : kv.2 <;> simp_all [Val.inSets]
+    · have := r.attrs kv hkv
+      cases hv : kv.2 <;> simp_all [Val.inSets]
+    · exact ⟨Or.inl (r.pcopies kv hkv s hs).1, Or.inl (r.pcopies kv hkv s hs).2⟩
+  have g := run_good ops w' w'' hc (fun n hn => Or.inr hn) hops hrun
   exact ⟨g.loc.logPrefix, fun i hi => g.loc.objsFrame i (by simp; exact hi),
-         fun c hc => g.loc.cellsFrame c (by simp; exact hc)⟩
+         fun c hc1 hc2 => g.loc.cellsFrame c (by simp; omega)⟩
 
 /-! ## Non-vacuity -/
 
@@ -218,6 +234,11 @@ example : (match runOps (getW (copyGraph .unbound c17W 1)) [.set 2 "x" (.int 7)]
     | .ok w => w.log | .error _ => []) = [(2, "s"), (3, "m")] := by rfl
 example : (match runOps (getW (copyGraph .unbound c17W 1)) [.set 0 "x" (.int 7)] with
     | .ok w => w.log | .error _ => []) = [(0, "s"), (1, "m")] := by rfl
+-- `copy.choice = 5` after the copy: appended to the copy's own new list, the class list and the original are untouched
+example : (match runOps (getW (copyGraph .unbound c17W 1)) [.set 3 "choice" (.int 5)] with
+    | .ok w => (w.cells[0]?, (snapshot w 3).head?.map (·.sel), (snapshot w 1).head?.map (·.sel))
+    | .error _ => (none, none, none)) =
+    (some [], some [("choice", true, [5], [])], some [("choice", false, [], [])]) := by rfl
 -- a copy-side history satisfying `opsIn`
 example : opsIn (fun o => c17W.objs.length ≤ o) (fun c => c17W.cells.length ≤ c)
     (getW (copyGraph .unbound c17W 1)) [.set 2 "x" (.int 9), .set 3 "a" .none] := by
